@@ -85,6 +85,21 @@ def scenarios():
                     h.append(guard([S("use-package"), Q(S(prov))]))
                     h.append(ref)
             out.append(h)
+    # a function of another package fails in a non-last / last body form, the error is handled, and the caller goes on:
+    # its unqualified references and definitions must still resolve in ITS package
+    for lib, app in (("p1", "user"), ("p1", "p2")):
+        for where in ("nonlast", "last", "ok"):
+            for via in ("direct", "funcall", "handler-inside"):
+                body = {"nonlast": [[S("error"), Q(S("lib-failed")), 1], Q(S("unreached"))],
+                        "last": [[S("probe"), Q(S("in-lib"))], [S("error"), Q(S("lib-failed")), 2]],
+                        "ok": [[S("probe"), Q(S("in-lib"))], Q(S("lib-value"))]}[where]
+                call = [S("%s:g" % lib)] if via != "funcall" else [S("funcall"), Q(S("%s:g" % lib))]
+                h = [[S("in-package"), Q(S(lib))], [S("set"), Q(S("x")), STR("lib-x")], [S("defun"), S("g"), []] + body,
+                     [S("in-package"), Q(S(app))], [S("set"), Q(S("x")), STR("app-x")]]
+                use = guard(call) if via != "handler-inside" else [S("progn"), guard(call), [S("probe"), Q(S("same-form")), S("x")]]
+                h += [[S("probe"), Q(S("result")), use], [S("probe"), Q(S("x-after")), S("x")], [S("set"), Q(S("y")), 5],
+                      guard([S("probe"), Q(S("y-in-app")), S("%s:y" % app)]), guard([S("probe"), Q(S("y-in-lib")), S("%s:y" % lib)])]
+                out.append(h)
     return out
 
 
@@ -108,7 +123,7 @@ def _run(V, work, tier):
     for _ in range(6000 if thorough else 900):
         hist.append([rnd.choice(A) for _ in range(rnd.randrange(4, 10))])
     sc = scenarios()
-    hist += sc if thorough else rnd.sample(sc, 90)
+    hist += sc if thorough else rnd.sample(sc[:-18], 90) + sc[-18:]      # the 18 cross-package failure scenarios always run
     recs, drv = [], []
     tail = [[S("probe"), Q(S("end"))]]
     for i, h in enumerate(hist):
